@@ -186,8 +186,54 @@ def correspond(ctx, scale):
     bl_cases, bl_meta, n_bl = block_cases(ctx, rng, scale, dist, failures)
     evaluations += n_bl
     rv_cases, rv_meta = rv_cases + bl_cases, rv_meta + bl_meta
+    cases_extra, meta_extra = [], []
+    from vector_quantize_pytorch import VectorQuantize
     cc_cases, cc_meta, n_cc = cross_config_cases(ctx, rng, scale, dist, failures, TOL_E, TOL_S)
     evaluations += n_cc
+    # state reached through something OTHER than the module's own attribute: (a) two modules whose codebook buffers are TIED (the same tensor objects
+    # registered in both, the usual PyTorch way of sharing) - a training step of one is visible through the other, for all four buffers alike;
+    # (b) torch.func.functional_call with the caller's own buffer tensors substituted - the step lands in the substituted tensors
+    from torch.func import functional_call as _fcall
+    for ci in range(4 if not ctx.thorough else 16):
+        cos_t = ci % 2 == 1
+        try:
+            kw_t = dict(dim=2, codebook_size=5, decay=0.5, use_cosine_sim=cos_t)
+            v1, v2 = VectorQuantize(**kw_t), VectorQuantize(**kw_t)
+            vqrec.set_codebook_grid(v1, rng)
+            for bn in ('embed', 'embed_avg', 'cluster_size', 'initted'):
+                setattr(v2._codebook, bn, getattr(v1._codebook, bn))
+            v1.train(); v2.train()
+            for t in range(2):
+                stepper, other = (v1, v2) if t == 0 else (v2, v1)
+                ret, recs = vqrec.record_call(stepper, vqrec.grid(rng, (2, 3, 2)))
+                evaluations += 1
+                dist['tied_codebook_steps'] = dist.get('tied_codebook_steps', 0) + 1
+                st_o = vqrec.cb_state(other._codebook)
+                if st_o != recs[0].after:
+                    failures.append({'key': f'vq-tied-codebooks:state-untied:cos={cos_t}', 'what': f'two VectorQuantize({kw_t}) modules with tied codebook buffers: after a training step of one, the other sees '
+                                     'different statistics (some buffers were rebound instead of updated in place)', 'case': dict(kw=kw_t, step=t)})
+                    break
+                cases_extra.append(update_term(recs[0], 0, stepper._codebook, cos_t, TOL_E, TOL_S))
+                meta_extra.append(dict(kind='vq-tied-codebooks', kw=kw_t, step=t, head=0, mode='train'))
+            v3 = VectorQuantize(**kw_t)
+            vqrec.set_codebook_grid(v3, rng)
+            v3.train()
+            subs = {k_: v_.detach().clone() for k_, v_ in list(v3.named_parameters()) + list(v3.named_buffers())}
+            before_f = {k_: v_.clone() for k_, v_ in subs.items()}
+            own_before = vqrec.cb_state(v3._codebook)
+            xf = vqrec.grid(rng, (2, 3, 2))
+            _fcall(v3, subs, (xf,))
+            dist['functional_call_steps'] = dist.get('functional_call_steps', 0) + 1
+            evaluations += 1
+            moved = [k_ for k_ in ('_codebook.cluster_size', '_codebook.embed_avg', '_codebook.embed') if not torch.equal(subs[k_], before_f[k_])]
+            if vqrec.cb_state(v3._codebook) != own_before:
+                failures.append({'key': f'vq-functional-call:own-state-changed:cos={cos_t}', 'what': f'VectorQuantize({kw_t}) called through torch.func.functional_call with substituted buffers changed its OWN buffers', 'case': dict(kw=kw_t)})
+            elif len(moved) not in (0, 3):
+                failures.append({'key': f'vq-functional-call:partial-update:cos={cos_t}', 'what': f'VectorQuantize({kw_t}) through torch.func.functional_call: only {moved} of the substituted statistics moved '
+                                 '(the codebook no longer equals running sum / smoothed count of the same store)', 'case': dict(kw=kw_t)})
+        except Exception as ex:
+            failures.append({'key': f'vq-tied-codebooks:exception:{type(ex).__name__}', 'what': repr(ex), 'case': dict(cos=cos_t)})
+    rv_cases, rv_meta = rv_cases + cases_extra, rv_meta + meta_extra
     rv_cases, rv_meta = rv_cases + cc_cases, rv_meta + cc_meta
     bad, broken = core.run_cases(ctx, 'c03', HEADER, cases + rv_cases, per_file=40)
     allmeta = meta + rv_meta
